@@ -2621,7 +2621,20 @@ def h_option_getitem(cls, pattern, variant, headkind):
         atom = lambda i: BV(i)
         short = '13UnmaskedArray'
     tail, adv = empty_tail_and_advanced(nc)
-    if headkind == 'at':
+    advv = None
+    if headkind == 'array_adv':
+        # the second of two index arrays: item = an integer array of n entries; `advanced` pairs entry i of this node with position advanced[i] of it
+        item = _slice_item(nc, 0, 'array1')
+        ad = nc.m.array('advdata', ('i', 64), max(1, n), const=True)
+        a_ = z3.Array('advdata', z3.BitVecSort(64), z3.BitVecSort(64))
+        advv = [z3.Select(a_, BV(i)) for i in range(n)]
+        for v in advv:
+            nc.m.assume(v >= 0, v < 2)
+        cells_ = {}
+        nc.index_cells(cells_, 0, ad, BV(0), BV(n))
+        cells_[48] = (BV(0, 8), 1)
+        adv = nc.m.record('advanced_pairing', cells_, const=True)
+    elif headkind == 'at':
         item = nc.m.record('sliceitem', {0: (nc.vptr_of('N7awkward7SliceAtE', 'SLC'), 8), 8: (nc.m.bv('at'), 8)}, const=True)
     else:
         item = nc.m.record('sliceitem', {0: (nc.vptr_of('N7awkward10SliceRangeE', 'SLC'), 8), 8: (nc.m.bv('start'), 8), 16: (nc.m.bv('stop'), 8), 24: (BV(1), 8)}, const=True)
@@ -2629,9 +2642,22 @@ def h_option_getitem(cls, pattern, variant, headkind):
     nc.m.record('ret', {})
     out = nc.m.call('_ZNK7awkward%s12getitem_nextERKSt10shared_ptrINS_9SliceItemEERKNS_5SliceERKNS_7IndexOfIlEE' % short, [Ptr('ret', 0), this, head, tail, adv])
     obls = [('passing a slice item through does not raise', out.raised), ('the content is asked', z3.Not(z3.Or([pc for pc, h, t, a in seen] + [z3.BoolVal(False)])))]
+    itemname = 'it0' if headkind == 'array_adv' else 'sliceitem'
+    valid_pos = [i for i in range(n) if not pattern[i]]
     for pc, h, t, a in seen:
-        same = z3.Or([g for g, q in nodeh.ptr_cases(h) if q.obj == 'sliceitem'] + [z3.BoolVal(False)]) if h is not None else z3.BoolVal(False)
+        same = z3.Or([g for g, q in nodeh.ptr_cases(h) if q.obj == itemname] + [z3.BoolVal(False)]) if h is not None else z3.BoolVal(False)
         obls.append(('the content receives the very same slice item', z3.And(pc, z3.Not(same))))
+        if advv is not None:
+            # the content holds only the valid entries: the pairing handed on must be that of those entries, in order
+            try:
+                got_adv = nc.index_terms(out.mem if False else nc.m.mem, a, 'advanced handed on')[0]
+            except (Unsupported, KeyError):
+                got_adv = None
+            if got_adv is None or len(got_adv) != len(valid_pos):
+                obls.append(('the pairing handed on has one position per valid entry (%s handed on, %d valid)' % ('?' if got_adv is None else len(got_adv), len(valid_pos)), pc))
+            else:
+                for k, i in enumerate(valid_pos):
+                    obls.append(('pairing of valid entry %d (entry %d of the node) is handed on with it' % (k, i), z3.And(pc, got_adv[k] != advv[i])))
     want = [NONE if pattern[i] else Elem(F(atom(i))) for i in range(n)]
     rcell = nc.m.cell('ret', 0)
     for g, res in (nodeh.decode_cases(nc, out.mem, rcell) if rcell is not None else []):
@@ -2660,6 +2686,11 @@ def h_option_getitem(cls, pattern, variant, headkind):
         # content: lc lists of two items each
         head_ = 'i64 %s regular 2 %d ' % (fullnative.ints(range(2 * lc)), lc)
         inner = [[2 * k_, 2 * k_ + 1] for k_ in range(lc)]
+        if headkind == 'array_adv':
+            cols = [i % 2 for i in range(n)]
+            prog = head_ + node + 'getitem 2 array %s array %s' % (fullnative.ints(range(n)), fullnative.ints(cols))
+            exp = [None if v < 0 else inner[v][cols[i]] for i, v in enumerate(iv)]
+            return akrun_check(prog, exp, '%s (valid entries -> content %s) sliced [[0..n-1], %s]' % (cls, iv, cols))
         if headkind == 'at':
             prog, exp = head_ + node + 'getitem 2 range NONE NONE NONE at 1', [None if v < 0 else inner[v][1] for v in iv]
         else:
@@ -2672,8 +2703,10 @@ def h_option_getitem(cls, pattern, variant, headkind):
 def jobs_option_getitem(tier):
     js = []
     pats = [(0, 1, 0), (0, 0)] if tier == 'quick' else [p for k in (1, 2, 3) for p in itertools.product((0, 1), repeat=k)]
-    for hk in ('at', 'range'):
+    for hk in ('at', 'range', 'array_adv'):
         for p in pats:
+            if hk == 'array_adv' and not p:
+                continue
             js.append((h_option_getitem, ('IndexedOptionArray64', p, None, hk), 1800))
             js.append((h_option_getitem, ('ByteMaskedArray', p, True, hk), 1800))
             js.append((h_option_getitem, ('BitMaskedArray', p, (True, False), hk), 1800))
@@ -5193,9 +5226,15 @@ def h_axis_through_record(meth, axis, nfields=1, outer=(2, 1)):
             return [Elem(BV(j)) for j in range(len(lst))]
         return (lst + [NONE] * max(0, 3 - len(lst)))[:(3 if meth == 'rpad_and_clip' else None)]
     want, r = [], 0
-    for L in outer:
-        want.append([[per_list(inner_lists_[k][r + i]) for k in range(nfields)] for i in range(L)])
-        r += L
+    if axis in (1, -2):
+        # the level of the outer lists (the lists that hold the records): addressed as 1 from the outside, as -2 from the leaves
+        if meth not in ('num', 'localindex'):
+            raise Unsupported('only num / localindex are stated for the record-holding level')
+        want = [Elem(BV(L)) if meth == 'num' else [Elem(BV(i)) for i in range(L)] for L in outer]
+    else:
+        for L in outer:
+            want.append([[per_list(inner_lists_[k][r + i]) for k in range(nfields)] for i in range(L)])
+            r += L
     for g, res in nodeh.decode_cases(nc, out.mem, nc.m.cell('ret', 0)):
         if res is None:
             obls.append(('a result is returned', z3.And(g, z3.Not(out.raised))))
@@ -5219,6 +5258,8 @@ def h_axis_through_record(meth, axis, nfields=1, outer=(2, 1)):
         ref = {'num': len, 'localindex': lambda l: list(range(len(l))), 'rpad': lambda l: py_pad(l, 3, False, None), 'rpad_and_clip': lambda l: py_pad(l, 3, True, None)}[meth]
         op = {'num': 'num %d', 'localindex': 'localindex %d', 'rpad': 'rpad 3 %d', 'rpad_and_clip': 'rpadclip 3 %d'}[meth] % axis
         exp = [[{str(k): ref(rows[k][i]) for k in range(nfields)} for i in range(oo[j], oo[j + 1])] for j in range(len(outer))]
+        if axis in (1, -2):
+            exp = [L if meth == 'num' else list(range(L)) for L in outer]
         return akrun_check(prog + op, exp, 'lists %s of records with %d list-typed fields (inner lengths %s): %s(axis=%d)' % (list(outer), nfields, inner_lens, meth, axis))
     return mdischarge(nc.m, 'list[record[list]]::%s axis=%d fields=%d outer=%s' % (meth, axis, nfields, ','.join(map(str, outer))), obls, [], replay=replay, prefer=[leaflen <= 24],
                       extra=dict(bounds='outer lists %s, %d fields, inner list lengths %s concrete; inner origins and leaf lengths symbolic; three real node levels over opaque leaves' % (list(outer), nfields, inner_lens)))
@@ -5229,11 +5270,17 @@ def jobs_axis_through_record(tier, meths):
     for m_ in meths:
         if tier == 'quick':
             js += [(h_axis_through_record, (m_, -1, 2), 1800), (h_axis_through_record, (m_, 2, 1), 1800)]
+            if m_ in ('num', 'localindex'):
+                js.append((h_axis_through_record, (m_, -2, 1), 1800))
         else:
             for outer in ((2, 1), (0, 3), (1, 1, 2), (4,)):
                 for nf in (1, 2, 3):
                     for ax in (2, -1):
                         js.append((h_axis_through_record, (m_, ax, nf, outer), 1800))
+            if m_ in ('num', 'localindex'):
+                for ax in (1, -2):
+                    for nf in (1, 2):
+                        js.append((h_axis_through_record, (m_, ax, nf, (2, 1)), 1800))
     return js
 
 
